@@ -276,7 +276,13 @@ def run_proc(cmd, cwd=None, cpu_s=20, wall_s=None, mem_gb=4, stdin=None, env=Non
 
 def pmap(fn, items, workers=None):
     """ordered parallel map over threads (the work is in child processes)"""
-    workers = workers or NCPU
+    if not workers:
+        # share a busy machine: with N runnable processes already competing for the cores, more workers only add thrashing
+        try:
+            load = os.getloadavg()[0]
+        except OSError:
+            load = 0.0
+        workers = NCPU if load <= NCPU * 1.5 else max(3, int(NCPU * NCPU / load))
     if workers <= 1 or len(items) <= 1:
         return [fn(x) for x in items]
     with ThreadPoolExecutor(max_workers=workers) as ex:
